@@ -103,6 +103,11 @@ def block(g, depth, kinds):
     if kind == "heading":
         m = g.marker()
         return ["# " + m], [(m, 0, "heading", None)]
+    if kind == "dup-refdef":
+        # a duplicate link reference definition spanning several lines: the warning belongs to its FIRST line
+        m = g.marker()
+        lab = "lbl" + m.lower()
+        return ["[%s]: http://a/%s" % (lab, m), "", "[%s]:" % lab, "  http://b/%s" % m, "  'title %s'" % m, "", m + " uses [%s]" % lab], [(m, 2, "warning:duplicate_def", None), (m, 6, "paragraph", None)]
     if kind == "unknown-directive":
         m = g.marker()
         return ["```{nosuchdirective%s}" % m, "x", "```"], [(m, 0, "warning:directive_unknown", None)]
@@ -180,7 +185,7 @@ def find_nodes(document):
         kind = n.tagname
         if kind == "system_message":
             text = plain_text(n)
-            for sub in ("directive_unknown", "role_unknown", "header", "directive_option"):
+            for sub in ("directive_unknown", "role_unknown", "header", "directive_option", "duplicate_def"):
                 if "[myst.%s]" % sub in text:
                     out.append(("warning:" + sub, _marker_in(text), n))
             continue
@@ -288,7 +293,7 @@ def make_include(eng):
             path = os.path.join(d, "inc.md")
             open(path, "w", encoding="utf8").write("\n".join(inc_lines) + "\n")
             src = os.path.join(d, "src.md")
-            outer = ["Mbefore para", "", "```{include} inc.md"] + ([":start-line: %d" % start] if start else []) + ["```", "", "Mafter para"]
+            outer = ["Mbefore para", "", "```{include} inc.md"] + ([":start-line: %d" % start] if start else []) + ["```", "", "Mafter para {nosuchroleafter}`x`"]
             ctx = CR.new_context(source=src)
             try:
                 run_layout(ctx, "\n".join(outer), S)
@@ -315,6 +320,12 @@ def make_include(eng):
             eng.require(before[0].line == S + 1 and before[0].source == src, "line", "outer paragraph before include")
             eng.require(after[0].line == S + 1 + len(outer) - 1 and after[0].source == src, "line", "outer paragraph after include: %s" % _fmt(eng, after[0].line, S))
             eng.require(ctx.document["source"] == src, "source-restored")
+            # a warning raised in the including file after the include belongs to the including file
+            wa = [n for k, mk, n in found if k == "warning:role_unknown" and "nosuchroleafter" in plain_text(n)]
+            eng.require(len(wa) == 1, "node-missing", "warning after the include")
+            eng.require(wa[0].get("source") == src, "source-after-include", "warning after the include is attributed to %r" % (wa[0].get("source"),))
+            eng.require(wa[0].get("line") == S + 1 + len(outer) - 1, "line", "warning after the include: line %s" % _fmt(eng, wa[0].get("line"), S))
+            stream_text = ctx.stream.getvalue() if hasattr(ctx.stream, "getvalue") else ""
         eng.note("directive")
         return "ok"
 
@@ -344,6 +355,7 @@ def make_toplevel(eng, kinds):
         toks = ctx.md.parse(text + eof, ctx.renderer.md_env)
         try:
             ctx.renderer._render_tokens(toks)
+            ctx.renderer._render_finalise()
         except Exception as exc:  # noqa
             eng.fail("render-raises", "%s: %s" % (type(exc).__name__, exc))
         check_lines(eng, ctx, marks, 0)
@@ -371,7 +383,7 @@ def families(tier, seed):
     if not q:
         F.append(Family("layout/D3", make_layout, "directive nesting depth 3; symbolic offset S", args=dict(depth=3, nblocks=1, kinds=["directive"], inner=["para", "directive"]), nontrivial="directive", max_forks=600000, required=False))
     F.append(Family("include", make_include, "include of a file with 1-2 blocks and :start-line: 0..2 at symbolic offset S", nontrivial="directive", max_forks=300000))
-    F.append(Family("toplevel", make_toplevel, "top-level render of 2 blocks (depth <= 1) tokenised by the real markdown-it", args=dict(kinds=["para", "list", "heading", "directive", "unknown-role"] if q else ALL),
+    F.append(Family("toplevel", make_toplevel, "top-level render of 2 blocks (depth <= 1) tokenised by the real markdown-it", args=dict(kinds=["para", "list", "heading", "directive", "unknown-role", "dup-refdef"] if q else ALL + ["dup-refdef"]),
                     nontrivial="directive", max_forks=300000))
     return F
 
@@ -384,35 +396,50 @@ def replay(label, witness):
             open(path, "w", encoding="utf8").write(witness["inc"] + "\n")
             src = os.path.join(d, "src.md")
             start = witness["start"]
-            outer = ["Mbefore para", "", "```{include} inc.md"] + ([":start-line: %d" % start] if start else []) + ["```", "", "Mafter para"]
+            outer = ["Mbefore para", "", "```{include} inc.md"] + ([":start-line: %d" % start] if start else []) + ["```", "", "Mafter para {nosuchroleafter}`x`"]
             ctx = CR.new_context(real=True, source=src)
             try:
                 ctx.renderer.nested_render_text("\n".join(outer), S)
             except Exception as e:  # noqa
                 return ("C04/exception:%s" % type(e).__name__, "%r" % (e,))
             found = find_nodes(ctx.document)
+            problems = []
             for marker, rel, kind, extra in witness["marks_inc"]:
                 want = {"heading": "title"}.get(kind, kind)
                 cands = [n for k, mk, n in found if k == want and mk == marker]
                 if not cands:
-                    return ("C04/node-missing", "no %s node for %s in include" % (kind, marker))
+                    problems.append(("C04/node-missing", "no %s node for %s in include" % (kind, marker)))
+                    continue
                 n = cands[0]
                 line = n.get("line") if kind.startswith("warning") else n.line
                 srcv = n.get("source") if kind.startswith("warning") else n.source
                 if srcv != path:
-                    return ("C04/include-source", "%s %s from the included file has source %r" % (kind, marker, srcv))
+                    problems.append(("C04/include-source", "%s %s from the included file has source %r" % (kind, marker, srcv)))
                 if line != start + rel + 1:
-                    return ("C04/include-off-by-one" if line == start + rel + 2 else "C04/include-line", "included file %r (start-line %d): %s %s is on line %d of the file but reported at line %r" % (
-                        witness["inc"], start, kind, marker, start + rel + 1, line))
+                    problems.append(("C04/include-off-by-one" if line == start + rel + 2 else "C04/include-line", "included file %r (start-line %d): %s %s is on line %d of the file but reported at line %r" % (
+                        witness["inc"], start, kind, marker, start + rel + 1, line)))
             after = [n for k, mk, n in found if k == "paragraph" and "Mafter" in n.astext()]
             if not after or after[0].line != S + 1 + len(outer) - 1 or after[0].source != src or ctx.document["source"] != src:
-                return ("C04/after-include", "outer node after the include: line %r source %r" % (after[0].line if after else None, after[0].source if after else None))
+                problems.append(("C04/after-include", "outer node after the include: line %r source %r" % (after[0].line if after else None, after[0].source if after else None)))
+            wa = [n for k, mk, n in found if k == "warning:role_unknown" and "nosuchroleafter" in n.astext()]
+            if len(wa) != 1 or wa[0].get("source") != src or wa[0].get("line") != S + 1 + len(outer) - 1:
+                problems.append(("C04/warning-after-include", "warning raised after the include in %r: source %r line %r" % (src, wa[0].get("source") if wa else None, wa[0].get("line") if wa else None)))
+            # report what the failed obligation was about; the (listed) off-by-one of included lines only if it is the only problem
+            wanted = {"line:include": ("C04/include-off-by-one", "C04/include-line"), "source:include": ("C04/include-source",), "source-after-include": ("C04/warning-after-include",)}.get(label)
+            for pr in problems:
+                if wanted and pr[0] in wanted:
+                    return pr
+            for pr in problems:
+                if pr[0] != "C04/include-off-by-one":
+                    return pr
+            return problems[0] if problems else None
         return None
     text, marks = witness["text"], witness["marks"]
     ctx = CR.new_context(real=True, config={"enable_extensions": ["colon_fence"]})
     try:
         if witness.get("toplevel"):
             ctx.renderer._render_tokens(ctx.md.parse(text + witness.get("eof", "\n"), ctx.renderer.md_env))
+            ctx.renderer._render_finalise()
         else:
             ctx.renderer.nested_render_text(text, S)
     except Exception as e:  # noqa
